@@ -27,6 +27,15 @@ for _c in list(ASCII_LOW + ASCII_UP + DIGITS + PUNCT) + UNI + ['\n', '\t']:
     assert _c.lower() == _model_lower(_c), repr(_c)
 
 
+def model_safe(t):
+    return all(c.lower() == _model_lower(c) and len(c.lower()) == 1 for c in t)
+
+
+def up(t):
+    u = t.upper()
+    return u if model_safe(u) else t
+
+
 def char(rng, alphabet=None):
     if alphabet:
         return rng.choice(alphabet)
@@ -110,7 +119,7 @@ def related(rng, v, depth=2):
     if isinstance(v, float):
         return rng.choice([v + 0.5, v - 0.25, int(v) if v == int(v) else v, v])
     if isinstance(v, str):
-        return rng.choice([v + 'a', v[:-1], v.upper(), v.lower(), v, 'a' + v])
+        return rng.choice([v + 'a', v[:-1], up(v), v.lower(), v, 'a' + v])
     if isinstance(v, list):
         if v and rng.random() < 0.5:
             w = list(v)
@@ -281,7 +290,7 @@ def operand_for(rng, r):
     if k in ('Equal', 'StartsWith', 'EndsWith', 'Contains', 'StringEqualRule'):
         s = r[1]
         if rng.random() < 0.85:
-            t = rng.choice([s, s.upper(), s.lower(), s + word(rng), word(rng) + s, word(rng) + s + word(rng), s[:-1]])
+            t = rng.choice([s, up(s), s.lower(), s + word(rng), word(rng) + s, word(rng) + s + word(rng), s[:-1]])
             return t
         return value(rng, 1)
     if k in ('RegexMatch', 'RegexMatchRule'):
@@ -472,9 +481,11 @@ def rule_policy(rng, uid, raising=True):
     return p, [], samples, ctx_samples
 
 
-def scenario(rng, ck, n_policies=None, tags=('<', '>'), max_segs=2, illtyped=0.03, raising=True):
+def scenario(rng, ck, n_policies=None, tags=('<', '>'), max_segs=2, illtyped=0.03, raising=True, easy=None):
     """-> dict(checker, policies, inquiry, rxtable) with roughly half of (policy, inquiry) pairs matching"""
     n = n_policies if n_policies is not None else rng.choice([0, 1, 2, 2, 3, 3, 4, 5, 6])
+    if easy is None:
+        easy = rng.random() < 0.45
     pols, table, smps, csmps = [], [], [], []
     for k in range(n):
         rule_kind = (ck == 'CRules')
@@ -485,6 +496,11 @@ def scenario(rng, ck, n_policies=None, tags=('<', '>'), max_segs=2, illtyped=0.0
             p, t, s, c = rule_policy(rng, uid, raising)
         else:
             p, t, s, c = string_policy(rng, uid, tags, max_segs)
+        if easy:
+            if rng.random() < 0.8:
+                p['effect'] = 'allow'
+            if rng.random() < 0.7:
+                p['context'], c = [], {}
         pols.append(p)
         table += t
         smps.append(s)
@@ -494,7 +510,7 @@ def scenario(rng, ck, n_policies=None, tags=('<', '>'), max_segs=2, illtyped=0.0
         k = rng.randrange(len(pols))
         q = dict(pols[k])
         q['uid'] = 'sib%d' % len(pols)
-        q['effect'] = rng.choice(EFFECTS)
+        q['effect'] = rng.choice(EFFECTS) if not easy or rng.random() < 0.4 else 'allow'
         pols.append(q)
         smps.append(smps[k])
         csmps.append(csmps[k])
@@ -508,19 +524,19 @@ def scenario(rng, ck, n_policies=None, tags=('<', '>'), max_segs=2, illtyped=0.0
             target = rng.choice(good)
     for f, name in (('subjects', 'subject'), ('resources', 'resource'), ('actions', 'action')):
         v = None
-        if target is not None and smps[target][f] and rng.random() < 0.93:
+        if target is not None and smps[target][f] and rng.random() < (0.99 if easy else 0.93):
             v = rng.choice(smps[target][f])
             if isinstance(v, dict) and 'CRegex' in v and 'CExact' in v:
                 v = v[ck]
             if v is None:
                 v = word(rng)
-            if isinstance(v, str) and rng.random() < 0.08:
+            if isinstance(v, str) and rng.random() < (0.02 if easy else 0.08):
                 v = mutate_str(rng, v)
         elif rng.random() < 0.5:
             v = word(rng)
         else:
             v = value(rng, 1)
-        if rng.random() < illtyped:
+        if rng.random() < (illtyped / 4 if easy else illtyped):
             v = rng.choice([None, 5, ['a'], {'a': 1}, 2.5])
         inq[name] = jv(v)
     ctx = {}
